@@ -7,7 +7,8 @@
 (***************************************************************************)
 EXTENDS RecordStore, TLC, Json
 
-CONSTANTS Depth, Record, WithCrash, KnownMask
+CONSTANTS Depth, Record, WithCrash, KnownMask,
+          WithFail     \* TRUE: a write body may fail (at most one failure report outstanding at a time)
 
 VARIABLES st, g, bad, hist, n
 vars == <<st, g, bad, hist, n>>
@@ -48,13 +49,15 @@ Step(x0) ==
        /\ bad' = FalsifiedBy(x)
        /\ n' = n + 1
        /\ hist' = IF Record THEN Append(hist, [ev |-> x.ev, k |-> x.k, v |-> x.v, i |-> x.i, ni |-> x.ni, n |-> IF x.ev = "HandleNote" THEN st.notes[x.ni] ELSE 0, rg |-> x.rg,
-                                               t |-> IF x.ev = "RunTask" THEN st.tasks[x.i] ELSE 0,
+                                               t |-> IF x.ev \in {"RunTask", "FailTask"} THEN st.tasks[x.i] ELSE 0,
                                                res |-> r.res, out |-> r.out, idx |-> r.st.idx, rb |-> x.rb])
                   ELSE hist
 
 DoPut == \E k \in Key, v \in Val : Step([Base("PutVerified") EXCEPT !.k = k, !.v = v])
 DoRemove == \E k \in Key : Step([Base("Remove") EXCEPT !.k = k])
 DoRunTask == \E i \in Runnable(st) : Step([Base("RunTask") EXCEPT !.i = i])
+DoFailTask == /\ WithFail /\ ~\E j \in 1..Len(st.notes) : st.notes[j].kind = "R"
+              /\ \E i \in {j \in Runnable(st) : st.tasks[j].kind = "W"} : Step([Base("FailTask") EXCEPT !.i = i])
 DoHandleNote == \E j \in 1..Len(st.notes) : Step([Base("HandleNote") EXCEPT !.ni = j])
 DoGet == Record /\ \E k \in Key : Step([Base("Get") EXCEPT !.k = k])
 DoSetRange == \E r \in 1..NK : st.range = 0 /\ Step([Base("SetRange") EXCEPT !.rg = r])
@@ -66,7 +69,7 @@ DoRestart == /\ WithCrash /\ ~g.restarted /\ n >= 2
              /\ \E tk \in {0} \cup {st.tasks[i].k : i \in {j \in Runnable(st) : st.tasks[j].kind = "W"}} :
                    Step([Base("Restart") EXCEPT !.k = tk])
 
-Next == DoPut \/ DoRemove \/ DoRunTask \/ DoHandleNote \/ DoGet \/ DoSetRange \/ DoCleanup \/ DoPayment
+Next == DoPut \/ DoRemove \/ DoRunTask \/ DoFailTask \/ DoHandleNote \/ DoGet \/ DoSetRange \/ DoCleanup \/ DoPayment
         \/ DoQuote \/ DoRestart
 Spec == Init /\ [][Next]_vars
 
